@@ -235,7 +235,9 @@ def run(pid: str, tier: str, seed: int, selftest=False, replay=None) -> int:
         for k in range(n_gen):
             kw = {}
             if pid == "C06":
-                kw = dict(chains=True, carried=True, one_setup_per_loop_nest=True, n_accs=2)
+                # known finding (loop rotation in NESTED loops): either at most one setup per accelerator per outermost loop nest, or loops
+                # that are never nested (then any number of setups and launches per loop body)
+                kw = dict(chains=True, carried=True, one_setup_per_loop_nest=True, n_accs=2) if k % 2 else dict(chains=True, carried=True, flat_loops=True, n_accs=2)
             text, argdom, opq = generate(seed, k, **kw)
             sources.append((f"gen:{seed}:{k}", text, argdom, opq))
             if pid == "C07" and k % 2 == 0:
